@@ -72,12 +72,19 @@ add(H("REPLAY", "m_replay_number_print_margin", "verif_k::c10::m_replay_number_p
 add(H("REPLAY", "m_replay_variable_operand", "verif_k::c10::m_replay_variable_operand", "", kani=False))
 add(H("REPLAY", "m_replay_time_print", "verif_k::c10::m_replay_time_print", "", kani=False))
 add(H("REPLAY", "m_replay_date_print", "verif_k::c10::m_replay_date_print", "", kani=False))
+add(H("REPLAY", "m_replay_datetime_print", "verif_k::c10::m_replay_datetime_print", "", kani=False))
 add(H("REPLAY", "d_dump_units", "verif_k::c12::d_dump_units", "", kani=False))
 add(H("REPLAY", "k_replay_set_text_lines", "verif_k::c04::k_replay_set_text_lines", "", kani=False))
 add(H("REPLAY", "k_replay_update_currency", "verif_k::c04::k_replay_update_currency", "", kani=False))
 add(H("REPLAY", "k_replay_api_rule2", "verif_k::c04::k_replay_api_rule2", "", kani=False))
 add(H("REPLAY", "k_replay_unit_history", "verif_k::c04::k_replay_unit_history", "", kani=False))
 add(H("REPLAY", "k_replay_unit_recognition", "verif_k::c04::k_replay_unit_recognition", "", kani=False))
+add(H("REPLAY", "k_replay_api_rule_places", "verif_k::c04::k_replay_api_rule_places", "", kani=False))
+add(H("REPLAY", "k_replay_unit_chain", "verif_k::c04::k_replay_unit_chain", "", kani=False))
+add(H("REPLAY", "m_replay_unit_amount", "verif_k::c12::m_replay_unit_amount", "", kani=False))
+add(H("REPLAY", "m_replay_token_location", "verif_k::c10::m_replay_token_location", "", kani=False))
+add(H("REPLAY", "k_replay_setters", "verif_k::c04::k_replay_setters", "", kani=False))
+add(H("REPLAY", "k_replay_set_language", "verif_k::c04::k_replay_set_language", "", kani=False))
 add(H("REPLAY", "k_replay_registration", "verif_k::c04::k_replay_registration", "", kani=False))
 add(H("REPLAY", "k_replay_api_rule", "verif_k::c04::k_replay_api_rule", "", kani=False))
 add(H("REPLAY", "k_replay_session_reuse", "verif_k::c04::k_replay_session_reuse", "", kani=False))
